@@ -446,6 +446,16 @@ func (c *Cluster) dagReplay(variants int) {
 		if !c.synthetic {
 			nearVariants = 2 // harvested histories keep most variants for orders, sub-DAGs, stores, caches
 		}
+		if !c.synthetic && whole && (vi == 2 || vi == 3) && batch == 1 {
+			// the order in which one of the real nodes of the run inserted the events
+			// (a genuine lagging view), completed with what that node never received
+			if vo := c.nodeViewOrder(r, base); vo != nil {
+				kind = "view"
+				order = vo
+				name = fmt.Sprintf("%s#%d", kind, vi)
+				cache = 10000
+			}
+		}
 		if len(c.synthNears) > 0 && vi < 2*len(c.synthNears) && vi < nearVariants && whole {
 			// two lagging views around a fragile vote: one learns about the lopsided
 			// voter first, the other about the real decider first
@@ -568,4 +578,64 @@ func (c *Cluster) crossCheckRefModel(ref *instance) {
 		}
 	}
 	c.stats.probe("refmodel-cross-checked")
+}
+
+// nodeViewOrder returns the events of the record in the order in which one
+// full-history node of the finished run inserted them (by its topological
+// index), followed by the events it never received. nil if no node qualifies.
+func (c *Cluster) nodeViewOrder(r *RNG, base []*DagEvent) []*DagEvent {
+	cands := []*SimNode{}
+	for _, n := range c.nodes {
+		if n.running() && !n.ffDone && !n.isObserver && !n.byz && n.storeKind == "inmem" && n.epoch == 0 {
+			cands = append(cands, n)
+		}
+	}
+	if len(cands) == 0 {
+		return nil
+	}
+	n := cands[r.Intn(len(cands))]
+	store := n.core().Hashgraph().Store
+	type ti struct {
+		e *DagEvent
+		t int
+	}
+	have := []ti{}
+	seen := map[int]bool{}
+	in := map[string]bool{}
+	for _, e := range base {
+		ev, err := store.GetEvent(e.Hash)
+		if err != nil {
+			continue
+		}
+		t := ev.SimTopologicalIndex()
+		if seen[t] {
+			return nil // indexes not distinct (evicted / reloaded events): not a usable view
+		}
+		seen[t] = true
+		have = append(have, ti{e, t})
+		in[e.Hash] = true
+	}
+	if len(have) < len(base)/2 {
+		return nil
+	}
+	sort.Slice(have, func(i, j int) bool { return have[i].t < have[j].t })
+	out := make([]*DagEvent, 0, len(base))
+	placed := map[string]bool{}
+	for _, h := range have {
+		// the node's order must be a valid order of the record
+		for _, p := range []string{h.e.SelfP, h.e.OtherP} {
+			if p != "" && c.dag.events[p] != nil && !placed[p] {
+				return nil
+			}
+		}
+		out = append(out, h.e)
+		placed[h.e.Hash] = true
+	}
+	for _, e := range c.dag.randomTopo(r, base, nil) {
+		if !in[e.Hash] {
+			out = append(out, e)
+		}
+	}
+	c.stats.probe("dagreplay-node-view-order")
+	return out
 }
